@@ -74,6 +74,10 @@ func (it *Interp) intervalFunc(s *State, name string, arg, r FloatV) {
 	}
 	var lo, hi float64
 	switch name {
+	case "math.Floor":
+		// exact and monotone
+		it.setInterval(s, r, math.Floor(ia.Lo), math.Floor(ia.Hi))
+		return
 	case "math.Sin":
 		if ia.Lo < -math.Pi/2 || ia.Hi > math.Pi/2 {
 			lo, hi = -1, 1
